@@ -188,9 +188,13 @@ class Base:
         uneliminatable_annotations = frozenset(a for a in annotations if not (a.eliminatable or a.relocatable))
         relocatable_annotations = frozenset(a for a in annotations if not a.eliminatable and a.relocatable)
 
+        # annotations of descendants that must not be eliminated are inherited even when the caller supplies
+        # the annotation tuple of this node itself (annotate(), remove_annotation(), ...)
+        for a in b_args:
+            uneliminatable_annotations |= a._uneliminatable_annotations
+
         if not skip_child_annotations:
             for a in b_args:
-                uneliminatable_annotations |= a._uneliminatable_annotations
                 relocatable_annotations |= a._relocatable_annotations
 
             annotations = tuple(frozenset((*annotations, *relocatable_annotations)))
@@ -250,6 +254,9 @@ class Base:
             relocatable_annotations = frozenset(
                 anno for anno in annotations if not anno.eliminatable and anno.relocatable
             )
+            for a in args:
+                if isinstance(a, Base):
+                    uneliminatable_annotations |= a._uneliminatable_annotations
 
             cache = type(self)._hash_cache
             h = Base._calc_hash(op, args, annotations, length)
